@@ -19,6 +19,7 @@ import Rc.Drv.C08
 import Rc.Drv.C16
 import Rc.Drv.C09
 import Rc.Drv.C20
+import Rc.Drv.C07
 import Rc.Drv.C18
 
 def dispatch (prop : String) : Option (List String → String) :=
@@ -39,6 +40,7 @@ def dispatch (prop : String) : Option (List String → String) :=
   | "C16" => some Rc.Drv.C16.handle
   | "C09" => some Rc.Drv.C09.handle
   | "C20" => some Rc.Drv.C20.handle
+  | "C07" => some Rc.Drv.C07.handle
   | "C18" => some Rc.Drv.C18.handle
   | _ => none
 
